@@ -80,6 +80,7 @@ def gen_desc(rng, prop):
     # a pre-empted process may stay descheduled for simulated time (stalled node), so that
     # timers of other processes fire while it sits between two statements
     d["stall_p"] = rng.choice([0.0, 0.1, 0.3, 0.6])
+    d["feed_p"] = rng.choice([0.0, 0.0, 0.0, 0.3, 0.8])
     # simulated processing times: most items are instantaneous, some are slow (stalled worker)
     delays = {}
     if rng.random() < 0.6:
@@ -489,13 +490,18 @@ def minimise(prop, desc, inv, budget=2500, wall=150.0):
         if fails(with_ld([])):
             cur = with_ld([])
         else:
-            keys = sorted(ld, key=lambda k: (k.split(":")[0], int(k.split(":")[1])))
+            def _order(k):
+                name, idx = k.split(":", 1)
+                put = idx.startswith("put")
+                return (name, 1 if put else 0, int(idx[3:] if put else idx))
+
+            keys = sorted(ld, key=_order)
             kept = ddmin(keys, lambda ks: fails(with_ld(ks)), max_tests=budget)
             cand = with_ld(kept)
             if fails(cand):
                 cur = cand
             for k, x in list(cur["line_decisions"].items()):
-                if x > 0:
+                if x > 0 and ":put" not in k:
                     for alt in (-1, 0.05):
                         if alt == x:
                             continue
